@@ -22,10 +22,14 @@ def e2e(name, kt, n, eps, epsrec, flt='float', tiers=('quick', 'thorough'), time
                        % (n, kt, eps, epsrec, flt, unwind or n + 3))
 
 
-def pla(name, k, epsmax=2, ymax=12, tiers=('quick', 'thorough'), timeout=900):
-    d = dict(KT['uint8_t']); d.update(NPTS=k, EPSMAX=epsmax, YMAX=ymax, VERIF_VEC_CAP=k + 2)
+def pla(name, k, epsfix=None, epsmax=2, ymax=12, xmax=255, maximality=True, tiers=('quick', 'thorough'), timeout=900):
+    d = dict(KT['uint8_t']); d.update(NPTS=k, EPSMAX=epsmax, YMAX=ymax, XMAX=xmax, VERIF_VEC_CAP=k + 2)
+    if epsfix is not None: d.update(EPSFIX=epsfix, EPSMAX=epsfix)
+    if not maximality: d.update(NO_MAXIMALITY=1)
     return dict(name=name, unit='pla.cpp', harness='h_pla.c', defs=d, narrow=16, timeout=timeout, tiers=tiers,
-                bounds='%d points with strictly increasing 8-bit keys and non-decreasing ranks <= %d, epsilon symbolic in 0..%d' % (k, ymax, epsmax))
+                bounds='%d points with strictly increasing uint8_t keys in 0..%d and non-decreasing ranks <= %d, epsilon %s; %s'
+                       % (k, xmax, ymax, ('= %d' % epsfix) if epsfix is not None else 'symbolic in 0..%d' % epsmax,
+                          'fit of every accepted point + maximality (exact feasibility oracle)' if maximality else 'fit of every accepted point (no maximality oracle)'))
 
 
 JOBS = {
@@ -40,9 +44,19 @@ JOBS = {
     ],
 }
 
-JOBS['C03'] = [pla('pla_k3', 3), pla('pla_k4', 4)]
+JOBS['C03'] = [pla('pla_fit_k3_e%d' % e, 3, epsfix=e, maximality=False) for e in (0, 1, 2)] + [pla('pla_fit_k4_e1', 4, epsfix=1, maximality=False)]
+JOBS['C04'] = [pla('pla_max_k3_e%d_x15' % e, 3, epsfix=e, xmax=15, ymax=6) for e in (0, 1)] + [pla('pla_max_k3_e1_x63', 3, epsfix=1, xmax=63, ymax=6, tiers=('thorough',), timeout=3000)]
+
+JOBS['C14'] = [md('md_contains_n1', 0, 1, 3), md('md_contains_n2', 0, 2, 3)]
+JOBS['C13'] = [md('md_range_n1', 1, 1, 3), md('md_range_n2', 1, 2, 3)]
+
+JOBS['C05'] = [dyn('dyn_b0_o2', 0, 2), dyn('dyn_b0_o3', 0, 3), dyn('dyn_noidx_b0_o4', 0, 4, idxl=10), dyn('dyn_noidx_b2_o2', 2, 2, idxl=10)]
 
 PROPS = {
+    'C05': dict(level='model_checking', explanation='', outside=[], assumptions=[]),
+    'C13': dict(level='model_checking', explanation='', outside=[], assumptions=[]),
+    'C14': dict(level='model_checking', explanation='', outside=[], assumptions=[]),
     'C03': dict(level='model_checking', explanation='', outside=[], assumptions=[]),
+    'C04': dict(level='model_checking', explanation='', outside=[], assumptions=[]),
     'C01': dict(level='model_checking', explanation='', outside=[], assumptions=[]),
 }
